@@ -192,6 +192,8 @@ class _Builder:
         """Rewrite a modelled combinator call at block `bid` into explicit control flow whose closure invocations are
         direct (spread) calls, which the main loop then splices.  Returns True when rewritten."""
         c = norm(t["callee"] or "")
+        if c in ITER_MODELS:
+            return self.iter_model(bid, t, c)
         m = MODELS.get(c)
         if not m:
             return False
@@ -284,6 +286,94 @@ class _Builder:
         self.inlined.append("model:" + c)
         return True
 
+    def iter_model(self, bid, t, c):
+        """`it.find_map(f)`, `find`, `any`, `all`, `for_each`, `position`: the loop std runs, written out:
+             head:  n = Iterator::next(&mut it);  match n { None => exit, Some(e) => body }
+             body:  r = f(e);  <test r> => found / head
+        so a scan written with a combinator and the same scan written as a `for` loop have the same shape."""
+        args = t["args"]
+        kind = ITER_MODELS[c]
+        if len(args) != 2 or args[0]["k"] == "const":
+            return False
+        cb = self.closure_of_operand(args[1])
+        if cb is None:
+            return False
+        ctx = self.ctx(bid)
+        line = t.get("line")
+        dest, target, unwind = t.get("dest"), t.get("target"), t.get("unwind")
+        goto = lambda bb: {"k": "goto", "target": bb, "line": line, "exp": False} if bb is not None else {"k": "unreachable", "line": line, "exp": False}
+        asg = lambda l, rv: {"k": "assign", "lhs": {"l": l, "proj": []} if isinstance(l, int) else copy.deepcopy(l), "rhs": rv, "line": line, "exp": False}
+        it = args[0]
+        ity = self.locals[it["p"]["l"]] if not it["p"]["proj"] else "?"
+        by_ref = ity.startswith("&mut ")
+        base_ty = ity[5:] if by_ref else ity
+        blk = self.blocks[bid]
+        itl = self.new_local(base_ty if not by_ref else ity)
+        blk["stmts"] = blk["stmts"] + [asg(itl, {"k": "use", "a": it})]
+        head = self.new_block([], None, ctx=ctx)
+        body = self.new_block([], None, ctx=ctx)
+        after = self.new_block([], None, ctx=ctx)
+        found = self.new_block([], None, ctx=ctx)
+        exit_ = self.new_block([], None, ctx=ctx)
+        n = self.new_local("std::option::Option<?>")
+        if by_ref:
+            recv = {"k": "copy", "p": {"l": itl, "proj": []}}
+        else:
+            r_ = self.new_local("&mut " + base_ty)
+            self.blocks[head]["stmts"].append(asg(r_, {"k": "ref", "mut": True, "p": {"l": itl, "proj": []}}))
+            recv = {"k": "move", "p": {"l": r_, "proj": []}}
+        nxt = "<%s as std::iter::Iterator>::next" % base_ty
+        sw = self.new_block([], None, ctx=ctx)
+        self.blocks[head]["term"] = {"k": "call", "callee": nxt, "callee_full": nxt, "orig": "std::iter::Iterator::next", "resolved": True, "trait": "std::iter::Iterator", "local": False, "substs": [],
+                                     "args": [recv], "dest": {"l": n, "proj": []}, "target": sw, "unwind": unwind, "line": line, "exp": False, "model": c}
+        dl = self.new_local("isize")
+        self.blocks[sw]["stmts"].append(asg(dl, {"k": "discr", "p": {"l": n, "proj": []}, "adt": O}))
+        self.blocks[sw]["term"] = {"k": "switch", "discr": {"k": "move", "p": {"l": dl, "proj": []}}, "dty": "isize", "targets": [["0", exit_]], "otherwise": body, "line": line, "exp": False, "model": c}
+        payload = {"l": n, "proj": [{"dc": "Some", "vi": 1}, {"f": "0", "i": 0, "ty": "?", "of": O}]}
+        env = args[1]
+        if cb.argc >= 1 and cb.locals[1].startswith("&"):
+            e = self.new_local(cb.locals[1])
+            self.blocks[body]["stmts"].append(asg(e, {"k": "ref", "mut": cb.locals[1].startswith("&mut"), "p": env["p"]}))
+            env = {"k": "move", "p": {"l": e, "proj": []}}
+        item = {"k": "move", "p": payload}
+        if kind in ("find", "position_ref"):
+            pr = self.new_local("&?")
+            self.blocks[body]["stmts"].append(asg(pr, {"k": "ref", "mut": False, "p": payload}))
+            item = {"k": "move", "p": {"l": pr, "proj": []}}
+        res = self.new_local(cb.locals[0])
+        self.blocks[body]["term"] = {"k": "call", "callee": cb.path, "callee_full": cb.path, "orig": c, "resolved": True, "trait": None, "local": True, "substs": [],
+                                     "args": [env, item], "dest": {"l": res, "proj": []}, "target": after, "unwind": unwind, "line": line, "exp": False, "direct": True}
+        # test of the closure's result
+        if kind == "find_map":
+            d2 = self.new_local("isize")
+            self.blocks[after]["stmts"].append(asg(d2, {"k": "discr", "p": {"l": res, "proj": []}, "adt": O}))
+            self.blocks[after]["term"] = {"k": "switch", "discr": {"k": "move", "p": {"l": d2, "proj": []}}, "dty": "isize", "targets": [["0", head]], "otherwise": found, "line": line, "exp": False, "model": c}
+            if dest is not None:
+                self.blocks[found]["stmts"].append(asg(dest, {"k": "use", "a": {"k": "move", "p": {"l": res, "proj": []}}}))
+                self.blocks[exit_]["stmts"].append(asg(dest, {"k": "agg", "adt": O, "variant": "None", "fields": [], "ops": []}))
+        elif kind in ("any", "all", "find"):
+            # any: true => found(true);  all: false => found(false);  find: true => found(Some(e))
+            stop_on = "0" if kind == "all" else "1"
+            self.blocks[after]["term"] = {"k": "switch", "discr": {"k": "move", "p": {"l": res, "proj": []}}, "dty": "bool",
+                                          "targets": [[stop_on, found]], "otherwise": head, "line": line, "exp": False, "model": c}
+            if dest is not None:
+                if kind == "find":
+                    self.blocks[found]["stmts"].append(asg(dest, {"k": "agg", "adt": O, "variant": "Some", "fields": ["0"], "ops": [{"k": "move", "p": payload}]}))
+                    self.blocks[exit_]["stmts"].append(asg(dest, {"k": "agg", "adt": O, "variant": "None", "fields": [], "ops": []}))
+                else:
+                    self.blocks[found]["stmts"].append(asg(dest, {"k": "use", "a": {"k": "const", "ty": "bool", "v": "1" if kind == "any" else "0"}}))
+                    self.blocks[exit_]["stmts"].append(asg(dest, {"k": "use", "a": {"k": "const", "ty": "bool", "v": "0" if kind == "any" else "1"}}))
+        else:   # for_each
+            self.blocks[after]["term"] = goto(head)
+            self.blocks[found]["term"] = goto(target)
+        if self.blocks[found]["term"] is None:
+            self.blocks[found]["term"] = goto(target)
+        self.blocks[exit_]["term"] = goto(target)
+        blk["term"] = goto(head)
+        blk["term"]["model"] = c
+        self.inlined.append("model:" + c)
+        return True
+
     def drop_impl(self, t):
         ty = norm(t.get("pty") or "")
         if not ty or t["p"]["proj"]:
@@ -324,6 +414,10 @@ MODELS = {
     R + "::unwrap_or": {"on": "result", "pure": True, "arms": {"Ok": [("payload",)], "Err": [("arg", 1)]}},
     "std::thread::LocalKey::with": {"on": "always", "arms": {"_": [("opaque", "&T"), ("call", 1, True)]}},
 }
+
+
+ITER_MODELS = {"std::iter::Iterator::find_map": "find_map", "std::iter::Iterator::find": "find", "std::iter::Iterator::any": "any",
+               "std::iter::Iterator::all": "all", "std::iter::Iterator::for_each": "for_each"}
 
 
 def inline(body, facts, keep=(), closures=True, helpers=True, drops=True, models=True, depth=MAX_DEPTH, only=None):
